@@ -347,6 +347,40 @@ def run(repo, rep, tier):
     miss = sorted(need - fp_reads)
     rep.ob("C15.R2", ucs, f"cell-style de-duplication fingerprint covers {sorted(need)}", not miss,
            "" if not miss else f"{miss} are written by add_cell_style but not part of the fingerprint: two styles differing only there share one saved cell style", key="C15.R2@fingerprint")
+    # every cell whose style is marked for a cell style gets one: no path of the cell loop skips the assignment of the
+    # style object id once the dirty flag test has passed
+    from ..symexec import body_paths as _bp
+    inner_loops = [n for n in body_walk(ucs) if isinstance(n, ast.For) and not any(isinstance(x, ast.For) for b in n.body for x in ast.walk(b))]
+    skipped = []
+    n_paths = 0
+    for lp in inner_loops:
+        for conds, steps, end in _bp(list(lp.body)):
+            n_paths += 1
+            dirty = any("_update_cell_style" in U(t) and o is True and not (isinstance(t, ast.UnaryOp)) for t, o in conds) or \
+                any("_update_cell_style" in U(t) and o is False and isinstance(t, ast.BoolOp) and isinstance(t.op, ast.Or) for t, o in conds)
+            assigns = any(isinstance(st_, ast.Assign) and any(U(tg).endswith("._cell_style_obj_id") for tg in st_.targets) for st_ in steps)
+            if dirty and not assigns:
+                extra = [U(t)[:80] for t, o in conds if "_update_cell_style" not in U(t)]
+                skipped.append((lp, extra))
+    ok = bool(inner_loops) and not skipped and n_paths > 0
+    rep.ob("C15.R2", skipped[0][0] if skipped else ucs, "update_cell_styles: every cell marked for a cell style is given one", ok,
+           "" if ok else f"a marked cell is passed over when `{(skipped[0][1] or ['?'])[0]}`: the saved file keeps the cell's previous cell style (fill, vertical alignment, inset) while the open document shows the new one",
+           key="C15.R2@cell:no-skip")
+    # an automatically chosen style name is fresh: its number is one more than the highest number in use
+    csn = repo.func("model.py", "_NumbersModel.custom_style_name")
+    from ..funsum import Summarizer as _Sm
+    fresh = []
+    for p_ in _Sm().summarize(csn):
+        if p_.kind != "return" or (isinstance(p_.ret, ast.Constant) and isinstance(p_.ret.value, str)):
+            continue
+        nums = [n for n in ast.walk(p_.ret) if isinstance(n, ast.BinOp) and isinstance(n.op, ast.Add) and try_const(n.right) == 1]
+        ok_ = any(isinstance(n.left, ast.Call) and call_name(n.left) == "max" and any(isinstance(x, ast.Call) and call_name(x) == "int" for x in ast.walk(n.left)) for n in nums)
+        fresh.append((p_.node, ok_, U(p_.ret)[:90]))
+    ok = bool(fresh) and all(o for _n, o, _t in fresh)
+    bad_ = next(((n_, t_) for n_, o, t_ in fresh if not o), (csn, ""))
+    rep.ob("C15.R2", bad_[0], "custom_style_name: the generated name carries max(numbers in use) + 1", ok,
+           "" if ok else f"the name is built as `{bad_[1]}`: with 'Custom Style 3' and 'Custom Style 2' present (in that order) it repeats a name in use, and the new style replaces the older one of that name",
+           key="C15.R2@custom-style-name:fresh")
     # vertical/horizontal halves of alignment
     ok = "style.alignment.horizontal" in U(aps) and "style.alignment.vertical" in U(acs) and "cell.style.alignment.vertical" in U(ucs)
     rep.ob("C15.R2", acs, "horizontal alignment -> paragraph style, vertical alignment -> cell style and fingerprint", ok, "", key="C15.R2@alignment-halves")
@@ -681,6 +715,10 @@ def sym_after(value, sym, cur_S, cur_L, cur_mode=None):
 
 
 VARIANTS = [
+    M("revert-fix-custom-style-name-last", "model.py", 'return "Custom Style " + str(max(custom_style_ids) + 1)', 'return "Custom Style " + str(custom_style_ids[-1] + 1)', "C15.R2"),
+    M("custom-style-name-by-count", "model.py", 'return "Custom Style " + str(max(custom_style_ids) + 1)', 'return "Custom Style " + str(len(set(custom_styles)) + 1)', "C15.R2"),
+    M("cell-style-skipped-for-plain-styles", "model.py", "                if cell._style is not None and cell._style._update_cell_style:\n                    fingerprint = (",
+      "                if cell._style is not None and cell._style._update_cell_style:\n                    if cell._style._cell_style_obj_id is None and cell._style.bg_color is None:\n                        continue\n                    fingerprint = (", "C15.R2"),
     M("add-stroke-right-indexed-by-row", "model.py", "            layer_ids = sidecar_obj.right_column_stroke_layers\n            row_column_index = col\n            origin = row",
       "            layer_ids = sidecar_obj.right_column_stroke_layers\n            row_column_index = row\n            origin = col", "C15.R4"),
     M("add-stroke-bottom-in-top-layers", "model.py", "            layer_ids = sidecar_obj.bottom_row_stroke_layers", "            layer_ids = sidecar_obj.top_row_stroke_layers", "C15.R4"),
